@@ -1,9 +1,12 @@
 """C03: HTTP client + server (with logging wrapper, server options, second hop) are transparent."""
+import os
+
 import regcommon as rc
 import vlib
 
 STRICT = {'K1_DeclaredTypeGoverns': False, 'F12_PushBlobUncoded': False}
 STACKS_Q = 'http(mem);http:redir(mem);http(small:2(mem));debug(http(debug(mem)));http:omitdigest+nolink+page2(http(mem));http:nosingle+page1+max3(mem)'
+UP_STACKS = 'http(mem);debug(http(debug(mem)));http(http(mem));http:nosingle(small:2(mem))'
 STACKS_T = STACKS_Q + ';http:redir(mem);http(http:redir+omitdigest(mem));http:page3+nolink(mem);http:omitdigest(mem);http(debug(http:nosingle(mem)));http:page2+max2(http:page1(mem))'
 
 
@@ -13,7 +16,14 @@ def run(ctx):
     rc.reg_check(ctx, STACKS_Q if quick else STACKS_T, STRICT, n_tlc=10 if quick else 300, n_rand=30 if quick else 1200,
                  cover='OciRegistryCover_all.cfg', cover_sample=250 if quick else 12000, uploads=40 if quick else 800,
                  profiles=('all', 'range'), tlc_cfg='OciRegistryGenNoUp.cfg', honest=True, label='client/server stacks vs OciRegistry')
-    ctx.assumptions += ['well-formed names only (C06/C17 cover the rest)', 'a caller that drives uploads as the BlobWriter contract says (C04 covers wrong offsets)',
+    # any caller of the upload calls (resume at any offset, data travelling with the closing PUT, wrong digests):
+    # the error codes of refusals have to come through the wire as well
+    vh = vlib.build_harness(ctx)
+    t = os.path.join(ctx.sub('traces'), 'rand-upload.ndjson')
+    rc.run_reg(ctx, vh, t, stacks=UP_STACKS, n=16 if quick else 500, steps=40, profile='upload')
+    rc.count_ops(ctx, t)
+    vlib.judge_traces(ctx, 'RegTrace', 'RegTrace.cfg', [t], strict=STRICT, label='any caller of the upload calls vs OciClientWriter/OciRegistry')
+    ctx.assumptions += ['well-formed names only (C06/C17 cover the rest)', 'a writer is not used again after Commit over HTTP; Cancel is not followed by further use over HTTP',
                         'HEAD-based resolves: status class only; mount size may be 0; a lying descriptor size over HTTP only has to fail',
                         'harness digest/JSON rendering; TLC + community modules']
     return vlib.finish(ctx, rule='each history runs through every stack; every client-side call is validated by TLC as a step of OciRegistry '
